@@ -18,7 +18,7 @@ fn tpl_yaml(doc: &Value) -> String {
     format!("{{{}}}\n", items.join(", "))
 }
 
-fn rule_out(r: &Rule) -> Value {
+pub fn rule_out(r: &Rule) -> Value {
     let mut ms: Vec<(String, String)> = r.matches.clone().unwrap_or_default().into_iter().collect();
     ms.sort();
     json!({"name": r.name, "matches": ms, "condition": r.condition})
